@@ -95,12 +95,14 @@ def audit(module, theorems, timeout=900):
     Returns {thm: {"status": "ok"|"missing"|"bad-axioms", "axioms": [...]}}.
     """
     os.makedirs(os.path.join(LEAN, ".lake", "audit"), exist_ok=True)
-    path = os.path.join(LEAN, ".lake", "audit", "Audit_%s_%d.lean" % (module.replace(".", "_"), os.getpid()))
+    modules = [module] if isinstance(module, str) else list(module)
+    path = os.path.join(LEAN, ".lake", "audit", "Audit_%s_%d.lean" % (modules[0].replace(".", "_"), os.getpid()))
     res = {}
     # one file per theorem group would hide which name is missing; instead run all and retry singly on error
     def run(names):
         with open(path, "w") as f:
-            f.write("import %s\n" % module)
+            for m in modules:
+                f.write("import %s\n" % m)
             for t in names:
                 f.write("#print axioms %s\n" % t)
         p = subprocess.run(["lake", "env", "lean", path], cwd=LEAN, stdout=subprocess.PIPE, stderr=subprocess.STDOUT,
